@@ -475,4 +475,67 @@ theorem prodGram_uncentred (M N : ℕ) (hN : 2 ≤ N) (U ξ c : ℕ → ℕ → 
   rw [t1, t2, t3, t4]
   ring
 
+theorem inner_sum_right (n s : ℕ) (t x : ℕ → ℚ) (φ : ℕ → ℕ → ℚ) (b : ℕ → ℚ) :
+    inner n t x (fun u => ∑ k ∈ range s, b k * φ k u) = ∑ k ∈ range s, b k * inner n t x (φ k) := by
+  unfold inner
+  have h : (fun j => x j * ∑ k ∈ range s, b k * φ k j) = fun j => ∑ k ∈ range s, b k * (x j * φ k j) := by
+    funext j; rw [Finset.mul_sum]; apply Finset.sum_congr rfl; intro k _; ring
+  rw [h, trapz_sum]
+  apply Finset.sum_congr rfl; intro k _
+  rw [trapz_smul]
+
+theorem inner_comm' (n : ℕ) (t x y : ℕ → ℚ) : inner n t x y = inner n t y x := by
+  unfold inner; congr 1; funext j; ring
+
+theorem inner_sum_left (n s : ℕ) (t y : ℕ → ℚ) (φ : ℕ → ℕ → ℚ) (a : ℕ → ℚ) :
+    inner n t (fun u => ∑ k ∈ range s, a k * φ k u) y = ∑ k ∈ range s, a k * inner n t (φ k) y := by
+  rw [inner_comm', inner_sum_right]
+  apply Finset.sum_congr rfl; intro k _; rw [inner_comm']
+
+/-- Product-space inner product of the Gram-route numerators = bilinear form of the SUM of the
+(uncentred-by-σ) component Gram matrices. -/
+theorem prodInner_gramEigenNum (P N : ℕ) (n : ℕ → ℕ) (t : ℕ → ℕ → ℚ) (D : ℕ → ℕ → ℕ → ℚ)
+    (v : ℕ → ℕ → ℚ) (k m : ℕ) :
+    prodInner P n t (fun p => gramEigenNum N (D p) v k) (fun p => gramEigenNum N (D p) v m)
+      = ∑ p ∈ range P, bil N (basisGram (n p) (t p) (D p)) (col v k) (col v m) := by
+  unfold prodInner
+  apply Finset.sum_congr rfl; intro p _
+  exact inner_lincomb (n p) N (t p) (D p) (col v k) (col v m)
+
+theorem bil_sum (P N : ℕ) (A : ℕ → ℕ → ℕ → ℚ) (x y : ℕ → ℚ) :
+    bil N (fun i k => ∑ p ∈ range P, A p i k) x y = ∑ p ∈ range P, bil N (A p) x y := by
+  unfold bil dot mulVec
+  conv_rhs => rw [Finset.sum_comm]
+  apply Finset.sum_congr rfl; intro i _
+  rw [← Finset.mul_sum]; congr 1
+  rw [Finset.sum_comm]
+  apply Finset.sum_congr rfl; intro k _
+  rw [Finset.sum_mul]
+
+/-- The sum of the component Gram matrices is the matrix handed to the solver plus the total noise
+shift on the diagonal. -/
+theorem bil_gramRoute (P N : ℕ) (n : ℕ → ℕ) (t : ℕ → ℕ → ℚ) (D : ℕ → ℕ → ℕ → ℚ) (σ2 : ℕ → ℚ)
+    (x y : ℕ → ℚ) :
+    ∑ p ∈ range P, bil N (basisGram (n p) (t p) (D p)) x y
+      = bil N (gramRouteMatrix P n t D σ2) x y + (∑ p ∈ range P, σ2 p) * dot N x y := by
+  rw [← bil_sum]
+  unfold gramRouteMatrix bil dot mulVec
+  rw [Finset.mul_sum, ← Finset.sum_add_distrib]
+  apply Finset.sum_congr rfl; intro i hi
+  have hS : (∑ p ∈ range P, σ2 p) * y i = ∑ k ∈ range N, (if i = k then ∑ p ∈ range P, σ2 p else 0) * y k := by
+    simp [Finset.sum_ite_eq, mem_range.mp hi]
+  have hk : ∑ k ∈ range N, (∑ p ∈ range P, basisGram (n p) (t p) (D p) i k) * y k
+      = ∑ k ∈ range N, (∑ p ∈ range P, (basisGram (n p) (t p) (D p) i k - if i = k then σ2 p else 0)) * y k
+        + (∑ p ∈ range P, σ2 p) * y i := by
+    rw [hS, ← Finset.sum_add_distrib]
+    apply Finset.sum_congr rfl; intro k _
+    rw [← add_mul]
+    congr 1
+    rw [Finset.sum_sub_distrib]
+    by_cases h : i = k
+    · simp [h]
+    · simp [h]
+  simp only []
+  rw [hk]; ring
+
 end FDA.MFPCA
